@@ -28,6 +28,12 @@ TERM_ALLOWED = {
 }
 
 
+HEADER_CARRIERS = ["opm/input/eclipse/Parser/Parser.cpp", "opm/input/eclipse/Schedule/Schedule.cpp", "opm/input/eclipse/EclipseState/EclipseState.cpp",
+                   "opm/output/eclipse/Summary.cpp", "opm/output/eclipse/RestartIO.cpp", "opm/input/eclipse/Deck/Deck.cpp", "opm/io/eclipse/ESmry.cpp",
+                   "opm/input/eclipse/EclipseState/SummaryConfig/SummaryConfig.cpp", "opm/input/eclipse/Schedule/KeywordHandlers.cpp",
+                   "opm/output/eclipse/LoadRestart.cpp", "opm/io/eclipse/ERst.cpp", "opm/io/eclipse/EGrid.cpp", "opm/input/eclipse/EclipseState/Grid/FieldProps.cpp"]
+
+
 def show_line(f, l):
     """Position of a report relative to its function (stable under edits elsewhere in the file)."""
     return "+%d" % (l - f["l"])
@@ -36,6 +42,14 @@ def show_line(f, l):
 def run(chk):
     units = core.library_units()
     fx = chk.facts(units)
+    # inline functions defined in headers (accessors of the raw-record / deck / state classes) take part in the closure too:
+    # they are parsed through a handful of units that between them include the parser, deck, state, schedule and I/O headers
+    hx = chk.facts(HEADER_CARRIERS, files_re=r"^/repo/opm/.*\.(hpp|h)$")
+    have = {(f["q"], f["file"], f["l"]) for f in fx.fns}
+    for f in hx.fns:
+        if (f["q"], f["file"], f["l"]) not in have:
+            fx.fns.append(f)
+    fx._fn_index = None
     by_q = {}
     for f in fx.fns:
         by_q.setdefault(f["q"], []).append(f)
@@ -128,6 +142,23 @@ def run(chk):
             chk.violation(r_ne, key + ":throw", "%s is %s but contains `throw %s`: std::terminate is called instead of propagating the error" % (f["q"], "a destructor" if f.get("dtor") else "noexcept", direct[0].get("t")), f["file"], direct[0]["l"])
         if calls and f.get("noexcept") and not f.get("dtor"):
             chk.violation(r_ne, key + ":call", "%s is noexcept but calls %s, which throws" % (f["q"], ", ".join(calls[:3])), f["file"], f["l"])
+        # standard-library calls whose contract is to throw on bad arguments (the data here is input-dependent)
+        if f.get("noexcept") and not f.get("dtor"):
+            stdthrow = []
+            for n in walk_fn(f):
+                if n["k"] in ("MCall", "Call"):
+                    fq = n.get("fn") or ""
+                    m_ = n.get("m") or fq.split("::")[-1]
+                    cls_ = n.get("cls") or ""
+                    if (m_ == "at" and cls_.startswith(("std::vector", "std::map", "std::unordered_map", "std::array", "std::deque", "std::basic_string", "std::basic_string_view"))) \
+                            or (m_ == "value" and cls_.startswith("std::optional")) \
+                            or (m_ in ("substr", "erase", "insert", "replace", "compare") and cls_.startswith(("std::basic_string", "std::basic_string_view")) and n.get("a")) \
+                            or re.fullmatch(r"std::(stoi|stol|stoll|stoul|stoull|stof|stod|stold|any_cast|get)(<.*)?", fq.split("(")[0]) and not fq.startswith("std::get<") \
+                            or (fq.startswith("std::get") and any("variant" in (p_ or "") for p_ in n.get("pt") or [])):
+                        stdthrow.append("%s::%s" % (cls_ or "std", m_))
+            if stdthrow:
+                chk.instance(r_ne, key + ":std", sample=dict(function=f["q"], throwing_std_calls=stdthrow[:4]))
+                chk.violation(r_ne, key + ":std", "%s is noexcept but calls %s, which throws on an out-of-range / malformed argument: with input that provokes it the exception cannot leave the function and std::terminate ends the process instead of the caller receiving a std::exception" % (f["q"], ", ".join(sorted(set(stdthrow))[:3])), f["file"], f["l"])
 
     # ---- C20.wrap
     r_wrap = chk.rule("C20.wrap", "the wrapping sites convert every std::exception into the documented error type and rethrow their own", floor=3)
